@@ -353,7 +353,7 @@ func (c c04) Run(e *Env, cs *Case) (*Outcome, error) {
 		// line that the reversal does not restore to what the plain build prints.
 		for _, d := range diffLines(base.Rev, base.Plain) {
 			_, rest, _ := strings.Cut(d, " | want: ")
-			v := &Violation{Class: "reversed-trace-differs-from-plain", Key: "reversed-trace-differs-from-plain/p6/" + p.Cfg + "/" + strings.TrimSpace(rest),
+			v := &Violation{Class: "reversed-trace-differs-from-plain", Key: "reversed-trace-differs-from-plain/p6/" + strings.TrimSpace(rest),
 				Detail: "corpus p6, reference reversal vs trace of the plain -trimpath build: " + d}
 			if o.Violation == nil {
 				o.Violation = v
